@@ -1,5 +1,6 @@
 import Heph.Proofs.DiagAnalyze
 import Heph.Proofs.DiagGroovy
+import Heph.Proofs.DiagScala
 /-! # C14 — compiler diagnostics are attributed to the right programs
 
 A proof over an output GRAMMAR: `render c is` prints a batch of items (`Spec/Diag.lean`) the way
@@ -30,6 +31,12 @@ theorem analyze_render_groovyc (is : List Item) (h : ∀ i ∈ is, WFItem .groov
     analyze .groovyc [] (render .groovyc is) = ⟨false, groupByFile (expected .groovyc is)⟩ :=
   analyze_render_of .groovyc is h (findAll_render_groovy is h)
 
+/-- scalac: the captured message of an error is the text after its header up to the first dash
+(`captured`), so it may run into what follows; files and order are exact. -/
+theorem analyze_render_scalac (is : List Item) (h : ∀ i ∈ is, WFItem .scalac i) :
+    analyze .scalac [] (render .scalac is) = ⟨false, groupByFile (expected .scalac is)⟩ :=
+  analyze_render_of .scalac is h (findAll_render_scala is h)
+
 /-- what `groupByFile` means: exactly the files that have an error (none added, none dropped),
 each once, each with exactly its own messages in order (none moved); and the model's
 `defaultdict` fold computes it. -/
@@ -56,6 +63,11 @@ theorem reported_iff_error_groovyc (is : List Item) (h : ∀ i ∈ is, WFItem .g
     f ∈ (analyze .groovyc [] (render .groovyc is)).failed.map (·.1)
       ↔ ∃ l col msg pad det, Item.error f l col msg pad det ∈ is := by
   rw [analyze_render_groovyc is h, keys_groupByFile, mem_firstOccs, mem_expected_files]
+
+theorem reported_iff_error_scalac (is : List Item) (h : ∀ i ∈ is, WFItem .scalac i) (f : List Char) :
+    f ∈ (analyze .scalac [] (render .scalac is)).failed.map (·.1)
+      ↔ ∃ l col msg pad det, Item.error f l col msg pad det ∈ is := by
+  rw [analyze_render_scalac is h, keys_groupByFile, mem_firstOccs, mem_expected_files]
 
 /-! ## crash classification (all four compilers) -/
 
@@ -103,6 +115,30 @@ theorem batch_independent_groovyc (is1 is2 : List Item) (h1 : ∀ i ∈ is1, WFI
       = lookupFailed f (analyze .groovyc [] (render .groovyc is1)).failed
         ++ lookupFailed f (analyze .groovyc [] (render .groovyc is2)).failed :=
   batch_independent_of .groovyc (by decide) findAll_render_groovy is1 is2 h1 h2 f
+
+/-- scalac's `[^-]+` may swallow text of the following item into the *message*, so for scalac
+independence is stated for the verdict (is the file reported): -/
+theorem batch_files_scalac (is1 is2 : List Item) (h1 : ∀ i ∈ is1, WFItem .scalac i)
+    (h2 : ∀ i ∈ is2, WFItem .scalac i) (f : List Char) :
+    f ∈ (analyze .scalac [] (render .scalac is1 ++ render .scalac is2)).failed.map (·.1)
+      ↔ f ∈ (analyze .scalac [] (render .scalac is1)).failed.map (·.1)
+        ∨ f ∈ (analyze .scalac [] (render .scalac is2)).failed.map (·.1) :=
+  batch_files_of .scalac findAll_render_scala is1 is2 h1 h2 f
+
+/-- the message-level statement is false for scalac: the message of the last error of the first
+part continues into the second part -/
+def batch_independent_scalac : Prop :=
+  ∀ (is1 is2 : List Item), (∀ i ∈ is1, WFItem .scalac i) → (∀ i ∈ is2, WFItem .scalac i) →
+    ∀ f, lookupFailed f (analyze .scalac [] (render .scalac is1 ++ render .scalac is2)).failed
+      = lookupFailed f (analyze .scalac [] (render .scalac is1)).failed
+        ++ lookupFailed f (analyze .scalac [] (render .scalac is2)).failed
+
+theorem batch_independent_scalac_counterexample : ¬ batch_independent_scalac := by
+  intro h
+  have := h [.error "a/p.scala".toList "3".toList "1".toList [] 0 ["3 |x".toList]] [.note "foo".toList]
+    (by decide +kernel) (by decide +kernel) "a/p.scala".toList
+  revert this
+  decide +kernel
 
 /-- corollary in the form used by C02: a file without error items in the second part has, in the
 whole batch, the verdict it has in the first part alone -/
